@@ -1,4 +1,4 @@
-use crate::wal::config::{MAX_FILE_SIZE, now_millis_str, sanitize_namespace, wal_data_dir};
+use crate::wal::config::{MAX_FILE_SIZE, millis_str_after, sanitize_namespace, wal_data_dir};
 use std::cell::RefCell;
 use std::fs;
 use std::path::{Path, PathBuf};
@@ -45,7 +45,10 @@ impl WalPathManager {
 
     pub(crate) fn create_new_file(&self) -> std::io::Result<String> {
         self.ensure_root()?;
-        let file_name = now_millis_str();
+        // Recovery reads the files in name order, and creating a file under an existing name would
+        // truncate it: whatever the wall clock says (it may repeat or step back between runs), a new
+        // file is named after every WAL file already in the directory.
+        let file_name = millis_str_after(self.newest_wal_file_millis());
         let path = self.root.join(&file_name);
         let f = std::fs::File::create(&path)?;
         f.set_len(MAX_FILE_SIZE)?;
@@ -59,6 +62,19 @@ impl WalPathManager {
         dir.sync_all()?;
 
         Ok(path.to_string_lossy().into_owned())
+    }
+
+    /// Largest millisecond timestamp among the WAL file names in the root (0 if there is none).
+    fn newest_wal_file_millis(&self) -> u64 {
+        let mut newest = 0u64;
+        if let Ok(dir) = fs::read_dir(&self.root) {
+            for entry in dir.flatten() {
+                if let Some(ms) = entry.file_name().to_str().and_then(|n| n.parse::<u64>().ok()) {
+                    newest = newest.max(ms);
+                }
+            }
+        }
+        newest
     }
 
     pub(crate) fn root(&self) -> &Path {
